@@ -140,11 +140,14 @@ class Assertion:
         return json.dumps(self.as_dict())
 
     def as_record(self):
-        from webauthn.helpers.structs import AuthenticationCredential, AuthenticatorAssertionResponse
+        from webauthn.helpers.structs import AuthenticationCredential, AuthenticatorAssertionResponse, AuthenticatorAttachment
+        kw = {}
+        if self.attachment in ("platform", "cross-platform"):
+            kw["authenticator_attachment"] = AuthenticatorAttachment(self.attachment)
         return AuthenticationCredential(
             id=self.id_text, raw_id=self.cred_id,
             response=AuthenticatorAssertionResponse(client_data_json=self.cdj, authenticator_data=self.ad, signature=self.sig, user_handle=self.user_handle),
-            type=self.typ)
+            type=self.typ, **kw)
 
 
 def make_assertion(cred, rp_id, challenge, origin, flags=0x05, count=1, cred_id=b"cred-id-0001", sign_scheme=None,
